@@ -634,7 +634,101 @@ def value_cases(rng, tier):
             continue
         out.append(Case({"stream": "value", "src": src, "tape": tape, "features": ["comprehension", "comp-traced"]}, None,
                         tags=["value", "comprehension", "comp-traced"]))
+    # unpacking a list OBJECT into targets that store into that same object (directly, through an alias, into a nested
+    # list that a nested target unpacks, as the `for` target of a comprehension): CPython takes all items BEFORE the first
+    # store (UNPACK_SEQUENCE / UNPACK_EX), so an earlier store must not change what a later target receives
+    seen = set()
+    for src, feats in UNPACK_FIXED:
+        add(src, "unpack", "unpack-self-store", *feats)
+    for _ in range(140 if tier == "quick" else 3000):
+        src = UnpackGen(rng).program()
+        if src in seen:
+            continue
+        seen.add(src)
+        try:
+            compile(src, "t", "exec")
+        except SyntaxError:
+            continue
+        # `*a[1:]` / `*o.attr` as starred target: recurse_assign reads `.id` of the starred node (known finding C01-F14)
+        add(src, "unpack", "unpack-self-store", *(["star-nonname-target"] if re.search(r"\*[a-z]\w*[\[.]", src) else []))
     return out
+
+
+UNPACK_FIXED = [
+    ("a = [1, 2]\na[1], a[0] = a\n", []),
+    ("a = [1, 2, 3]\na[2], a[0], a[1] = a\n", []),
+    ("a = [Tv(1, 10), Tv(2, 20)]\nb = a\nb[Tv(3, 1)], b[Tv(4, 0)] = a\n", ["alias"]),
+    ("m = [[1, 2], 0]\n(m[0][1], m[0][0]), m[1] = m\n", ["nested"]),
+    ("a = [1, 2]\nr = [0 for a[1], a[0] in [a]]\n", ["comp-target"]),
+    ("a = [[7], 8, 9]\na[1:], x, y = a\n", ["slice-store"]),
+    ("a = [1, 2, 3]\na[0], *a[1:] = a\n", ["slice-store", "star-nonname-target"]),
+    ("a = [1, 2, 3, 4]\na[3], *r, a[0] = a\n", ["star"]),
+    ("a = [1, 2]\n[a[1], a[0]] = a\n", ["list-target"]),
+    ("a = [1, 2]\nx = y = 0\na[1], x, = a\n", []),
+    ("a = [5, 6]\nfor a[1], a[0] in [a, a]:\n    pass\n", ["for-target"]),
+    ("a = [1, 2, 3]\nx, *y = a\nz = y is a\nw = y == a\n", ["control"]),
+]
+
+
+class UnpackGen:
+    """`<targets> = L` where L is a list object and some targets are subscript / slice stores into L itself"""
+
+    def __init__(self, rng):
+        self.rng = rng
+
+    def program(self):
+        rng = self.rng
+        n = rng.choice([2, 2, 3, 3, 4])
+        nested = rng.random() < 0.3
+        vals = rng.sample(range(1, 30), n)
+        items = [str(v) for v in vals]
+        lines = []
+        if nested:
+            # element 0 is itself a list that a nested target unpacks while storing into it
+            m = rng.choice([2, 3])
+            inner = rng.sample(range(40, 70), m)
+            items[0] = "[" + ", ".join(str(v) for v in inner) + "]"
+        lines.append("a = [" + ", ".join(items) + "]")
+        alias = rng.random() < 0.35
+        if alias:
+            lines.append("b = a")
+        nm = (lambda: rng.choice(["a", "b"])) if alias else (lambda: "a")
+
+        def store(base, length):
+            r = rng.random()
+            if r < 0.62:
+                i = rng.randrange(-length, length + (1 if rng.random() < 0.1 else 0))
+                return f"{base}[{i}]"
+            if r < 0.72:
+                return f"{base}[{rng.randrange(0, length)}:{rng.choice(['', str(rng.randrange(0, length + 1))])}]"
+            return rng.choice(["x", "y", "z"])
+
+        tgts = []
+        star_at = rng.randrange(0, n) if rng.random() < 0.2 else None
+        k = n if star_at is None else rng.randrange(1, n + 1)
+        for j in range(k):
+            if j == star_at:
+                tgts.append("*" + (rng.choice(["s", "s", f"{nm()}[{rng.randrange(0, n)}:]"])))
+            elif nested and j == 0 and rng.random() < 0.8:
+                m = items[0].count(",") + 1
+                sub = [store(f"{nm()}[0]", m) for _ in range(m)]
+                tgts.append("(" + ", ".join(sub) + ")")
+            else:
+                tgts.append(store(nm(), n))
+        if rng.random() < 0.08:
+            tgts = tgts[:-1] if len(tgts) > 1 else tgts + ["x"]            # arity mismatch: ValueError before any store
+        tl = ", ".join(tgts) + ("," if len(tgts) == 1 else "")
+        rhs = nm()
+        form = rng.random()
+        if form < 0.7:
+            if rng.random() < 0.2:
+                tl = "[" + ", ".join(tgts) + "]"
+            lines.append(f"{tl} = {rhs}")
+        elif form < 0.85:
+            lines.append(f"r = [0 for {tl} in [{rhs}]]")
+        else:
+            lines.append(f"for {tl} in [{rhs}]:\n    pass")
+        return "\n".join(lines) + "\n"
 
 
 class CompGen:
